@@ -20,6 +20,7 @@ package dao
 import (
 	"context"
 	"database/sql"
+	"errors"
 	"fmt"
 	"sync"
 	"time"
@@ -73,12 +74,11 @@ func (t *TccFenceStoreDatabaseMapper) QueryTCCFenceDO(tx *sql.Tx, xid string, br
 	)
 
 	if err = result.Scan(&xid, &branchId, &actionName, &status, &gmtCreate, &gmtModify); err != nil {
-		// will return error, if rows is empty
-		if err.Error() == "sql: no rows in result set" {
-			return nil, fmt.Errorf("query tcc fence get scan row，no rows in result set, [%w]", err)
-		} else {
-			return nil, fmt.Errorf("query tcc fence get scan row failed, [%w]", err)
+		// no fence record for this branch: that is an answer (the caller decides what it means), not a failure
+		if errors.Is(err, sql.ErrNoRows) {
+			return nil, nil
 		}
+		return nil, fmt.Errorf("query tcc fence get scan row failed, [%w]", err)
 	}
 
 	tccFenceDo := &model.TCCFenceDO{
